@@ -233,9 +233,9 @@ func init() {
 		Explanation: "Decides structural necessary conditions of 'the language server stays consistent': UNITS(utf16): every outbound Position.Character is a sum of constants and results of the audited UTF-16 converter (two units above U+FFFF); the inbound conversion consumes two units for such runes and rejects positions between them. IDXGUARD: constant-index reads of client-supplied arrays are dominated by a length test. " +
 			"SEQ: package ls starts no goroutine; DidOpen/DidChange store the document before type-checking and publish the request's version; startLS serves the connection through protocol.Handlers(protocol.ServerHandler(…)). RANGE(single-line): the end of a diagnostic range is Offset + length of the error text up to its first newline. " +
 			"Not decided: the jsonrpc2 transport, that definition results are the right identifiers.",
-		Rules: []string{"UNITS(utf16)", "IDXGUARD", "SEQ", "RANGE(single-line)"},
+		Rules:       []string{"UNITS(utf16)", "IDXGUARD", "SEQ", "RANGE(single-line)"},
 		Assumptions: []string{"go.lsp.dev/protocol.Handlers + ServerHandler reply only after the handler method returned (read in the vendored sources)"},
-		Run:   func(c *Ctx) { ruleLS(c) },
+		Run:         func(c *Ctx) { ruleLS(c) },
 	})
 }
 
@@ -245,7 +245,7 @@ func init() {
 		Explanation: "Decides structural necessary conditions of 'generated parsers accept exactly the language' across table writers (lalr/) and readers (the five committed generated parsers and js's hand-written parse loop): CODEC(parser): every read of the packed table is guarded by 0 <= pos < tmTableLen, -2-action is used as a state only for action < -1, rule tables are indexed only with action >= 0. SIBLING(gotoState): the generated default-encoding gotoState has the same comparisons, index arithmetic and returns as lalr.(*DefaultEnc).gotoState. ENTRY: the i-th exported Parse* starts in state i with a final state that is not an entry state. " +
 			"GUARD(markerfree): RuleLen counts only non-marker symbols. CODEC(optimize), GUARD(usedBase), GUARD(dedupe), GUARD(entry), FIELDCOV(minimize), MUSTPASS(compile-order), MUSTPASS(nonassoc-rewrite): the writers keep the encodings consistent. FRESH(lookahead): every read of p.next in each parse() is dominated by a definition made in the same call (no stale lookahead on a reused Parser). RESET(histogram): reused counter slices of Optimize/pickDefault are zeroed per state. PERITEM(flag): boolean fields of per-item records (Input.NoEoi, ...) are not carried around the loop that builds them. " +
 			"Not decided: correctness of the LR(0)/LALR construction and of the shift/reduce loop as algorithms; the error-location clause.",
-		Rules: []string{"CODEC(parser)", "SIBLING(gotoState)", "DTX(lr0-shift)", "ENTRY", "GUARD(markerfree)", "CODEC(optimize)", "GUARD(usedBase)", "GUARD(dedupe)", "GUARD(entry)", "FIELDCOV(minimize)", "MUSTPASS(compile-order)", "MUSTPASS(nonassoc-rewrite)", "FRESH(lookahead)", "RESET(histogram)", "PERITEM(flag)"},
+		Rules: []string{"CODEC(parser)", "SIBLING(gotoState)", "DTX(lr0-shift)", "ENTRY", "GUARD(markerfree)", "CODEC(optimize)", "GUARD(usedBase)", "GUARD(dedupe)", "GUARD(entry)", "FIELDCOV(minimize)", "MUSTPASS(compile-order)", "MUSTPASS(nonassoc-rewrite)", "FRESH(lookahead)", "TYPESTATE(lookahead)", "RESET(histogram)", "PERITEM(flag)"},
 		Run: func(c *Ctx) {
 			ruleTABLEIDX(c)
 			ruleGOTOSIBLING(c)
@@ -260,6 +260,7 @@ func init() {
 			ruleCOMPILEORDER(c)
 			rulePRECPLUMBING(c)
 			ruleFRESH(c)
+			rulePEEK(c)
 			ruleRESET(c, "lalr")
 			rulePERITEM(c, "compiler", "syntax", "lalr", "grammar")
 		},
@@ -267,10 +268,12 @@ func init() {
 	register(&Property{
 		ID: "C02",
 		Explanation: "Decides structural necessary conditions of 'listener events reproduce the derivation' on every case of every committed generated applyRule: STACKIDX: each stack reference stack[len(stack)-K] / stack[len(stack)-A:len(stack)-B] of case i lies inside the tmRuleLen[i] symbols of rule i (inside the prefix for mid-rule nonterminals), ranges are non-empty, fixTrailingWS gets exactly the whole right-hand side. " +
-			"GUARD(markerfree) and LOOPSHAPE(marker-transparent): state markers never count as symbols and never stop a scan of the right-hand side (HasTrailingNulls decides whether trailing whitespace is trimmed). VARIANT(trim-trailing-empty): all trailing empty symbols are trimmed from a node's range. SIBLING(list-recursion): every recursive list rule built by Expand is left-recursive unless the list is flagged right-recursive (elements are reported in source order). " +
+			"GUARD(markerfree) and LOOPSHAPE(marker-transparent): state markers never count as symbols and never stop a scan of the right-hand side (HasTrailingNulls decides whether trailing whitespace is trimmed). VARIANT(trim-trailing-empty): all trailing empty symbols are trimmed from a node's range. SIBLING(list-recursion): every recursive list rule built by Expand is left-recursive unless the list is flagged right-recursive (elements are reported in source order). TYPESTATE(lookahead): the offset given to an empty node (p.next.offset) is read only while the lookahead is fetched, never after it was consumed by a shift. FIELDROLE(input): each branch on a flag of syntax.Input reads the flag its audited role names (node types are collected from non-Synthetic inputs; NoEoi is a different bool on the same record). " +
 			"Not decided: that the range is the right sub-range, post-order, node types; list expansion order.",
-		Rules: []string{"STACKIDX", "GUARD(markerfree)", "LOOPSHAPE(marker-transparent)", "VARIANT", "SIBLING(list-recursion)"},
+		Rules: []string{"STACKIDX", "GUARD(markerfree)", "LOOPSHAPE(marker-transparent)", "VARIANT", "SIBLING(list-recursion)", "TYPESTATE(lookahead)", "FIELDROLE(input)"},
 		Run: func(c *Ctx) {
+			rulePEEK(c)
+			ruleFIELDROLE(c)
 			ruleSTACKIDX(c)
 			ruleMARKERFREE(c)
 			ruleMARKERLOOPS(c)
